@@ -30,7 +30,7 @@ FLAG_INV = {
     "start_after_stop": "NoStartAfterStop", "loop_after_stop": "NoStartAfterStop",
     "criterion_mismatch": "EndsOnCriterion", "ended_early": "EndsOnCriterion", "overshoot": "EndsOnCriterion",
     "left_running": "NothingRunningAtReturn", "no_stop_all": "NothingRunningAtReturn", "counters": "CountersMatch",
-    "error_not_failed": "FailureContained", "resume_failed_run": "FailureContained",
+    "error_not_failed": "FailureContained", "crash_registered_as_success": "FailureContained", "resume_failed_run": "FailureContained",
     "failure_limit": "FailureLimit", "failure_not_named": "FailureLimit", "failure_not_notified": "FailureNotifiedOnce",
     "delete_live": "DeleteOnlyWhenDead", "copy_missing": "CopySourceExists", "copy_missing_stopped_while_queued": "CopySourceExists", "resume_ckpt_missing": "ResumeSourceExists", "checkpoint_not_found_by_worker": "ResumeSourceExists",
     "checkpoint_unexpected": "ResumeSourceExists",
